@@ -403,7 +403,7 @@ theorem exec_agree (hd : ∀ k, ¬ D k → d k = 0) :
       · simp only [hdt, Bool.false_eq_true, if_false] at hx ⊢
         by_cases hsafe : safeE σ v = true
         · simp only [hsafe, if_true] at hx ⊢
-          simp at hx; subst hx
+          simp only [Except.ok.injEq] at hx; subst hx
           exact ⟨_, rfl, h.of (h.toShiftA.setSV n _) rfl⟩
         · simp [hsafe] at hx
   | .adecl n dt sizes c vals, σ, τ, σ', rs, hro, h, he, hg => by
